@@ -67,6 +67,7 @@ def image_mask_from_geom(size, bbox, polygons):
         for ring in p.interiors:
             draw.polygon([transf(coord) for coord in ring.coords], fill=255)
 
+    parts = []
     for p in polygons:
         # little bit smaller polygon does not include touched pixels outside coverage
         buffered = p.buffer(buffer, resolution=1, join_style=2)
@@ -76,9 +77,17 @@ def image_mask_from_geom(size, bbox, polygons):
 
         if buffered.geom_type == 'MultiPolygon':
             # negative buffer can turn polygon into multipolygon
-            for p in buffered.geoms:
-                draw_polygon(p)
+            parts.extend(buffered.geoms)
         else:
-            draw_polygon(buffered)
+            parts.append(buffered)
+
+    def extent_area(p):
+        minx, miny, maxx, maxy = p.bounds
+        return (maxx - minx) * (maxy - miny)
+
+    # a polygon inside the hole of another one (island in a lake) is drawn
+    # after it, or the hole would be painted over the island
+    for p in sorted(parts, key=extent_area, reverse=True):
+        draw_polygon(p)
 
     return mask
